@@ -272,6 +272,12 @@ UPGRADER:
 				}
 				p.proto = ""
 				p.nextState(stateProtoLF)
+			default:
+				// only spaces may follow the version token: anything else
+				// (a bare LF, the next line) is not part of the request line.
+				if p.proto != "" {
+					return ErrCRExpected
+				}
 			}
 		case stateClientProtoBefore:
 			if c == 'H' {
